@@ -1104,3 +1104,27 @@ def clause_k(c: Check):
                      'the action of %s %s when the answer is "not successful" and %s when it is successful' % (
                          name, ' / '.join(sorted(outcomes['failed'])), ' / '.join(sorted(outcomes['ok']))), act.loc())
     c.floor('C01-k', 'step actions of the ATC executor', n_actions, 4)
+    # ... and with the KIND of failure the answer carries: where the answer of the actor has a status of its own (a
+    # validation error or a hard error), the failure raised is made from that status - not from a constant
+    n_kind = 0
+    for name, m in sorted(ae.methods.items()):
+        for act in [b[1] for bs in m.local_bindings().values() for b in bs if b[0] == 'def']:
+            for rname, bs in act.local_bindings().items():
+                if len(bs) != 1 or bs[0][0] != 'assign' or not isinstance(bs[0][1], ast.Call):
+                    continue
+                d = ix.callee(act.module, act, bs[0][1])
+                ret = d.node.returns if isinstance(d, FuncDef) else None
+                rcls = ix.resolve_static(d.module, d, ret) if ret is not None else None
+                if not (isinstance(rcls, ClassDef) and isinstance(ix.class_member(rcls, 'status'), FuncDef)):
+                    continue
+                for call in ast.walk(act.node):
+                    if isinstance(call, ast.Call) and isinstance(call.func, ast.Name) and call.func.id == 'failure_con' and call.args:
+                        n_kind += 1
+                        a0 = call.args[0]
+                        uses_status = any(isinstance(x, ast.Attribute) and x.attr == 'status' and isinstance(x.value, ast.Name)
+                                          and x.value.id == rname for x in ast.walk(a0))
+                        c.expect(uses_status, 'C01-k', 'atc-step-action/%s/kind-of-failure' % name,
+                                 'the failure of %s is raised with the status `%s` although the answer of the actor (%s) '
+                                 'says which kind of failure it is: a hard error is reported as another kind' % (
+                                     name, unparse(a0), rcls.name), act.loc())
+    c.floor('C01-k', 'step actions whose answer carries a status', n_kind, 1)
